@@ -271,6 +271,15 @@ def ok (P : Plat) (cpp : Bool) : Expr → Bool
   | .tern c a b => rootClass P cpp (.tern c a b) == .fine && ok P cpp c && ok P cpp a && ok P cpp b
   | .cast _ e => ok P cpp e
 
+/-- every node is well-typed (whatever its deviation class) -/
+def wellTypedTree (P : Plat) (cpp : Bool) : Expr → Bool
+  | .var _ => true
+  | .lit base us longs value => litClass P base us longs value != .illTyped
+  | .un op e => rootClass P cpp (.un op e) != .illTyped && wellTypedTree P cpp e
+  | .bin op a b => rootClass P cpp (.bin op a b) != .illTyped && wellTypedTree P cpp a && wellTypedTree P cpp b
+  | .tern c a b => wellTypedTree P cpp c && wellTypedTree P cpp a && wellTypedTree P cpp b
+  | .cast _ e => wellTypedTree P cpp e
+
 /-- the class of the first node (post-order: operands before the operator) that is not `fine` -/
 def firstClass (P : Plat) (cpp : Bool) : Expr → NodeClass
   | .var _ => .fine
